@@ -227,11 +227,12 @@ Definition block_ends (s : pstate) : bool :=
          || peek TKeywordStruct s || peek TKeywordEnum s
   end.
 
-(* `if let Some(Token(UnsignedNum(i, Unspecified), _)) = self.tokens.peek()` *)
-Definition unspec_index (ts : list token) : option (N * list token) :=
-  match ts with
-  | Token (TUnsignedNum i UnspecifiedU) _ :: r => Some (i, r)
-  | _ => None
+(* `if let ExprEnum::NumUnsigned(i, Unspecified) = index.inner { index.inner = NumUnsigned(i, Usize) }`:
+   an unsuffixed number that is the WHOLE index is a usize *)
+Definition retype_index (index : uexpr) : uexpr :=
+  match index with
+  | UNumUnsigned i UnspecifiedU => UNumUnsigned i Usize
+  | _ => index
   end.
 
 Section WithExpr.
@@ -284,15 +285,11 @@ Section WithExpr.
         if peek TLeftBracket s || peek TDot s then
           match next_matches TLeftBracket s with
           | Some s1 =>
-              match unspec_index (toks s1) with
-              | Some (i, r) =>
-                  (* an unsuffixed literal index is a usize; it must be the whole index *)
-                  expect TRightBracket (PState r (sla s1)) (fun s2 =>
-                    postfix_loop n' (UArrayAccess x (UNumUnsigned i Usize)) s2)
-              | None =>
-                  bindp (pe s1) (fun index s2 =>
-                    expect TRightBracket s2 (fun s3 => postfix_loop n' (UArrayAccess x index) s3))
-              end
+              (* the index is always a full expression (`a[1 + i]`); retyped when it is a bare
+                 unsuffixed number (`a[1]`, also `a[(1)]`); then `]` *)
+              bindp (pe s1) (fun index s2 =>
+                let index := retype_index index in
+                expect TRightBracket s2 (fun s3 => postfix_loop n' (UArrayAccess x index) s3))
           | None =>
               match next_matches TDot s with
               | Some s1 =>
